@@ -83,9 +83,13 @@ Definition is_front (id : N) (ws : list waiter) : bool :=
   | [] => false
   end.
 
-(** The guard of the cancel path.  [fx = false] is the code as it is ([s.size > s.cur]);
-    [fx = true] is the repaired guard ([s.size >= s.cur]) used only to state what the repair buys. *)
+(** The guard of the cancel path.  [fx = true] is [s.size >= s.cur], the code as it is since the
+    repair of finding F4 (/repo commit 61b3423d); [fx = false] is the old guard [s.size > s.cur], kept
+    only to explain what a regression to [>] would break. *)
 Definition cancel_guard (fx : bool) (sz c : Z) : bool := if fx then c <=? sz else c <? sz.
+
+(** The guard of the current code; the correspondence run executes [step code_guard]. *)
+Definition code_guard : bool := true.
 
 Definition fits (s : state) (n : Z) : bool :=      (* s.size-s.cur >= n && s.waiters.Len() == 0 *)
   (n <=? sub64 (size s) (cur s)) && is_nil (waiters s).
